@@ -3,7 +3,7 @@
 use std::collections::BTreeMap;
 use yui::Ratio;
 use yui_homology::{GridTrait, SummandTrait};
-use yui_kh::kh::KhHomologyBigraded;
+use yui_kh::kh::{KhComplexBigraded, KhHomologyBigraded};
 use yui_link::Link;
 use yui_link::util::jones_polynomial;
 use yv::links::*;
@@ -31,6 +31,17 @@ fn chi_kh(l: &Link) -> LP {
     m.retain(|_, c| *c != 0);
     m
 }
+/// the same Euler characteristic through the other public route to a bigraded table (homology of the bigraded complex), over Z
+fn chi_kh_complex(l: &Link) -> LP {
+    let kh = KhComplexBigraded::<i64>::new(l, &0, &0, false).homology();
+    let mut m = LP::new();
+    for idx in kh.support() {
+        let r = kh.get(idx).rank() as i64;
+        if r != 0 { *m.entry(idx.1).or_insert(0) += if idx.0.rem_euclid(2) == 0 { r } else { -r }; }
+    }
+    m.retain(|_, c| *c != 0);
+    m
+}
 fn inv_q(p: &LP) -> LP { p.iter().map(|(e, c)| (-e, *c)).collect() }
 
 fn base_case(s: &mut Sink, name: &str, l: &Link, with_kh: bool) -> Option<LP> {
@@ -49,6 +60,11 @@ fn base_case(s: &mut Sink, name: &str, l: &Link, with_kh: bool) -> Option<LP> {
             s.oracle(c == j, "graded Euler characteristic of Kh (library table over Q) = jones_polynomial", &format!("{} [{}]", link_txt(l), name), &format!("chi {} jones {}", lp_txt(&c), lp_txt(&j)));
             s.case(&format!("chi {}", link_txt(l)), &format!("{} ev=ok", lp_txt(&c)), l.crossing_num() >= 2);
             s.count("with-kh");
+            let l4 = l.clone();
+            match guard_timeout(120, move || chi_kh_complex(&l4)) {
+                Some(Some(c2)) => s.oracle(c2 == j, "graded Euler characteristic of Kh (homology of the bigraded complex over Z) = jones_polynomial", &format!("{} [{}]", link_txt(l), name), &format!("chi {} jones {}", lp_txt(&c2), lp_txt(&j))),
+                _ => s.oracle(false, "Khovanov homology terminates without panic on a valid diagram", &link_txt(l), "panic/timeout (bigraded complex)"),
+            }
         } else {
             s.oracle(false, "Khovanov homology terminates without panic on a valid diagram", &link_txt(l), "panic/timeout");
         }
